@@ -190,10 +190,20 @@ class NetNcp(NcpEzsp):
                                 key=sec.preconfiguredKey, outgoingFrameCounter=self.nv_aps_fc, incomingFrameCounter=0,
                                 sequenceNumber=0, partnerEUI64=t.EUI64(b"\xff" * 8))
 
+    key_reads = 0
+    refuse_key_read = None       # ordinal of the getKey / exportKey request to answer with a transient failure and a zero key (fault injection)
+
+    def _key_read_refused(self):
+        k = self.key_reads
+        self.key_reads += 1
+        return self.refuse_key_read is not None and k == self.refuse_key_read
+
     def _getKey(self, a):
         t = self.t
         from mc import gen_values as gv
 
+        if self._key_read_refused():
+            return [self.st("getKey", "fail"), self.blank(t.EmberKeyStruct)]
         if not self.running:
             return [self.st("getKey", "not_joined"), self.blank(t.EmberKeyStruct)]
         if a["keyType"] == t.EmberKeyType.CURRENT_NETWORK_KEY:
@@ -208,7 +218,9 @@ class NetNcp(NcpEzsp):
         rx = self.cls.COMMANDS["exportKey"][2]
         key = t.KeyData(b"\x00" * 16)
         kind = "ok"
-        if not self.running:
+        if self._key_read_refused():
+            kind = "fail"
+        elif not self.running:
             kind = "fail"
         elif int(getattr(ctx, "multi_network_index", 0)) != 0:
             kind = "fail"                                   # single-network NCP: only network index 0 exists
